@@ -121,4 +121,9 @@ def orPanicO {α : Type} (o : Option α) (k : α → Outcome) : Outcome :=
 @[rs_eval] theorem orPanicO_some {α} (a : α) (k : α → Outcome) : orPanicO (some a) k = k a := rfl
 @[rs_eval] theorem orPanicO_none {α} (k : α → Outcome) : orPanicO none k = .panic := rfl
 
+/-! ### [threads] begin: registrations for the core rules added with the `Threads` group -/
+rs_register_eqns evalEach listPush captureArgs filterBy
+@[rs_eval] theorem Ext.none_refMut (w v st) : Ext.none.refMut w v st = Option.none := rfl
+/-! ### [threads] end -/
+
 end ClockBound.Rs
